@@ -193,3 +193,28 @@ Theorem c01_send_answers_accepted_nostop : forall c tr s oss u s' os ok b rs,
     map r_id (filter has_id rs) = call_ids ms.
 Proof. exact SrvC01b.c01_send_answers_accepted_nostop. Qed.
 Print Assumptions c01_send_answers_accepted_nostop.
+
+(* 9. delivered iff non-silent.  ufin s u = unit u is finished; is_deliver u l = the label is LRelDeliver u.
+      A finished unit with something to say was delivered exactly once on the trace, one with nothing to say never. *)
+Theorem c01_delivered_iff_nonsilent : forall c tr s oss u, run (init_of c) tr = Some (s, oss) -> ufin s u = true ->
+  (responses (unit_tasks s u) <> [] -> countb (is_deliver u) tr = 1) /\
+  (responses (unit_tasks s u) = [] -> countb (is_deliver u) tr = 0).
+Proof. exact SrvC01b.c01_delivered_iff_nonsilent. Qed.
+Print Assumptions c01_delivered_iff_nonsilent.
+
+(* the output history: unit_sends tr oss = the (unit, array flag, responses) of the OSend observations of the
+   LRelDeliver windows of the run, in trace order; delivered tr = the units of those windows.  They are exactly the
+   finished units with a non-empty reply, each once, with the unit's batch flag and the responses of its tasks
+   (every other OSend of a run is a reader's null-id error: c01_send_origin). *)
+Theorem c01_output_history : forall c tr s oss, run (init_of c) tr = Some (s, oss) ->
+  unit_sends tr oss = map (fun u => (u, ubatch s u, responses (unit_tasks s u))) (delivered tr) /\
+  NoDup (delivered tr) /\
+  (forall u, In u (delivered tr) <-> ufin s u = true /\ responses (unit_tasks s u) <> []).
+Proof. exact SrvC01b.c01_output_history. Qed.
+Print Assumptions c01_output_history.
+
+(* the reply of a complete unit never changes afterwards *)
+Theorem c01_responses_stable : forall s s' u, ext2 s s' -> u < length (units s) -> all_finished s u = true ->
+  responses (unit_tasks s' u) = responses (unit_tasks s u).
+Proof. exact SrvC01b.responses_stable. Qed.
+Print Assumptions c01_responses_stable.
